@@ -1,9 +1,154 @@
-(* C01 - Concentrated-liquidity pools stay solvent under every operation history.  Theorem file. *)
-From Coq Require Import ZArith List Bool.
+(* C01 - Concentrated-liquidity pools stay solvent under every operation history.  Theorem file.
+   Model: CL/*.v (shared pool model, b-cl) + CLR/*.v (reward bookkeeping); proofs: C01/*.v on top of C07 (invariants of the pool
+   model), C03 (per-step rounding directions) and C08 (reachable-state invariant of the reward model).  See C01/STATUS.md.
+
+   What is proved: the PRINCIPAL part of DESIGN's invariant, in every state reachable from a fresh pool by any history of
+   create / withdraw / add-to-position / transfer / swap-exact-in / swap-exact-out (both directions) / time / collect spread
+   rewards / collect incentives / create incentive:
+       bal0 >= E0     and     bal1 >= E1 - n * (1/2) 10^-36
+   where E0, E1 are the exact rational values of all open positions at the current sqrt price and n (hist_cost) counts the
+   created positions and the steps of one-for-zero swaps of the history.  The slack on token1 is not an artefact: the code's
+   CalcAmount1Delta(roundUp) is MulDec (half-even at the 36th decimal) followed by Ceil, which under-charges by up to half a
+   unit of the 36th decimal (Properties/C03.v has the witness); it never reaches one token unit while n < 2 * 10^36, which
+   is what the corollaries need.  Also proved: no operation creates or destroys funds (the three module accounts plus the
+   users are a closed system).
+   NOT proved (see C01_full below): the two reward-account conjuncts and the success of the exit sequence itself. *)
+From Coq Require Import ZArith QArith List Bool Lia Sorting.Permutation.
 Import ListNotations.
-From Osmo Require Import CL.CLPool CL.CLSwap CL.CLStep CLR.RSwap CLR.RStep C08.Proj.
+From Osmo Require Import Base.DecModel CL.TickMath CL.CLMath CL.CLPool CL.CLSwap CL.CLStep CL.Ideal
+  CLR.Accum CLR.Rewards CLR.RSwap CLR.RStep C07.Base C07.LP C08.Proj C08.Dom
+  C01.Funds C01.Exact C01.Solvent C01.SwapPath C01.Potential C01.SwapSolvent C01.History C01.Full.
 Open Scope Z_scope.
 
+(* ==== the full statement (DESIGN.md section 5, C01) ==== *)
+Definition C01_full : Prop :=
+  forall sp spf ssc isc users t ops, 0 < sp -> 0 <= spf <= 500000000000000000 ->
+  let rs := rrun (rinit sp spf ssc isc users t) ops in
+  Solv rs /\ withdraw_all_succeeds rs.
+
+(* ==== atomicity and conservation ==== *)
 Theorem C01_failed_step_unchanged : forall rs o rs', rstep rs o = (rs', None) -> rs' = rs.
 Proof. exact rstep_failed_unchanged. Qed.
 Print Assumptions C01_failed_step_unchanged.
+
+(* pool + spread-reward + incentive account + all users: constant, per denom, through every operation *)
+Theorem C01_funds_conserved : forall d ops rs, rtotal d (rrun rs ops) = rtotal d rs.
+Proof. exact funds_conserved_run. Qed.
+Print Assumptions C01_funds_conserved.
+
+(* ==== rounding directions of the amounts CreatePosition charges / WithdrawPosition pays, against the exact values ==== *)
+Theorem C01_actual_amounts_charged : forall p lo hi L a0 a1, (0 < p_spacing p)%Z -> price_consistent p -> (0 < p_sqrt p)%Z ->
+  validate_tick_range (p_spacing p) lo hi = true -> (0 < L)%Z ->
+  calc_actual_amounts p lo hi L = Some (a0, a1) ->
+  (val0 (p_sqrt p) L lo hi <= qz (d_truncate_int a0))%Q /\ (val1 (p_sqrt p) L lo hi - eps36 <= qz (d_truncate_int a1))%Q
+  /\ (0 <= d_truncate_int a0)%Z /\ (0 <= d_truncate_int a1)%Z.
+Proof. exact actual_amounts_charged. Qed.
+Print Assumptions C01_actual_amounts_charged.
+
+Theorem C01_actual_amounts_paid : forall p lo hi L a0 a1, (0 < p_spacing p)%Z -> price_consistent p -> (0 < p_sqrt p)%Z ->
+  validate_tick_range (p_spacing p) lo hi = true -> (0 < L)%Z ->
+  calc_actual_amounts p lo hi (- L) = Some (a0, a1) ->
+  (qz (- d_truncate_int a0) <= val0 (p_sqrt p) L lo hi)%Q /\ (qz (- d_truncate_int a1) <= val1 (p_sqrt p) L lo hi)%Q
+  /\ (0 <= - d_truncate_int a0)%Z /\ (0 <= - d_truncate_int a1)%Z.
+Proof. exact actual_amounts_paid. Qed.
+Print Assumptions C01_actual_amounts_paid.
+
+(* ==== one operation ==== *)
+Theorem C01_create_solvent : forall s owner a0 a1 m0 m1 lo hi s' c n, Inv s -> SolvP s n ->
+  create_position s owner a0 a1 m0 m1 lo hi = Some (s', c) -> SolvP s' (n + 1).
+Proof. exact create_solvent. Qed.
+Print Assumptions C01_create_solvent.
+
+Theorem C01_withdraw_solvent : forall s owner id liq s' amts n, Inv s -> SolvP s n -> (0 <= n)%Z ->
+  withdraw_position s owner id liq = Some (s', amts) -> SolvP s' n.
+Proof. exact withdraw_solvent. Qed.
+Print Assumptions C01_withdraw_solvent.
+
+Theorem C01_add_solvent : forall s owner id a0 a1 m0 m1 s' r n, Inv s -> SolvP s n -> (0 <= n)%Z ->
+  add_to_position s owner id a0 a1 m0 m1 = Some (s', r) -> SolvP s' (n + 1).
+Proof. exact add_solvent. Qed.
+Print Assumptions C01_add_solvent.
+
+(* the potential function: moving the price inside one bucket changes the exact values by the exact amounts of the move at the
+   total liquidity of the positions in range (C07's active liquidity) - item (iii)/(iv) of DESIGN 9.2 *)
+Theorem C01_bucket_potential : forall s t x y, Inv s -> 0 < x -> x <= y ->
+  (price_consistent_at (p_spacing (s_pool s)) t x \/ b_side_ok s t x) ->
+  (price_consistent_at (p_spacing (s_pool s)) t y \/ b_side_ok s t y) ->
+  (qsum_pos (pval0 x) (s_pos s) - qsum_pos (pval0 y) (s_pos s) == seg_amount0 (sum_liq (f_range t) (s_pos s)) x y /\
+   qsum_pos (pval1 y) (s_pos s) - qsum_pos (pval1 x) (s_pos s) == seg_amount1 (sum_liq (f_range t) (s_pos s)) x y)%Q.
+Proof. exact bucket_potential. Qed.
+Print Assumptions C01_bucket_potential.
+
+Theorem C01_swap_in_solvent : forall s n sender zfo amt mo s' out, Inv s -> SolvP s n ->
+  swap_exact_in s sender zfo amt mo = Some (s', out) -> SolvP s' (n + swap_cost s zfo).
+Proof. exact swap_in_solvent. Qed.
+Print Assumptions C01_swap_in_solvent.
+
+Theorem C01_swap_out_solvent : forall s n sender zfo amt mi s' tin, Inv s -> SolvP s n ->
+  swap_exact_out s sender zfo amt mi = Some (s', tin) -> SolvP s' (n + swap_cost s zfo).
+Proof. exact swap_out_solvent. Qed.
+Print Assumptions C01_swap_out_solvent.
+
+(* every operation of the reward-aware model (solv_step, principal part) *)
+Theorem C01_solv_step_principal_partial : forall rs o n, RInv rs -> (0 <= n)%Z -> SolvP (r_base rs) n ->
+  SolvP (r_base (fst (rstep rs o))) (n + op_cost (r_base rs) o).
+Proof. exact solv_step. Qed.
+Print Assumptions C01_solv_step_principal_partial.
+
+(* ==== all histories (solv_reachable, principal part).  PARTIAL with respect to C01_full: the spread-reward and incentive
+   account conjuncts of Solv are not proved, and the token1 bound carries the slack hist_cost * (1/2) 10^-36 ==== *)
+Theorem C01_solv_reachable_principal_partial : forall sp spf ssc isc users t ops, 0 < sp -> 0 <= spf <= 500000000000000000 ->
+  let rs0 := rinit sp spf ssc isc users t in
+  SolvP (r_base (rrun rs0 ops)) (hist_cost rs0 ops).
+Proof. exact solvent_reachable. Qed.
+Print Assumptions C01_solv_reachable_principal_partial.
+
+(* withdraw_all_succeeds, PARTIAL: in every reachable state the amounts a full withdrawal of any open position pays are covered
+   by the pool account (so the bank never refuses the principal); since withdrawals are operations of the history this holds
+   again after each exit, in any order.  Not proved: that WithdrawPosition passes its other checks and that the reward
+   accounts can pay what the withdrawal collects on the way. *)
+Theorem C01_withdraw_all_covered_partial : forall sp spf ssc isc users t ops q x0 x1, 0 < sp -> 0 <= spf <= 500000000000000000 ->
+  let rs0 := rinit sp spf ssc isc users t in
+  let s := r_base (rrun rs0 ops) in
+  hist_cost rs0 ops < 2 * 10 ^ 36 -> In q (s_pos s) ->
+  calc_actual_amounts (s_pool s) (ps_lower q) (ps_upper q) (- ps_liq q) = Some (x0, x1) ->
+  - d_truncate_int x0 <= fst (b_pool (s_bank s)) /\ - d_truncate_int x1 <= snd (b_pool (s_bank s)).
+Proof. exact withdraw_all_covered. Qed.
+Print Assumptions C01_withdraw_all_covered_partial.
+
+(* dust_nonneg, PARTIAL (pool account only): the pool account is never negative, in particular after everybody has left *)
+Theorem C01_dust_nonneg_pool_partial : forall sp spf ssc isc users t ops, 0 < sp -> 0 <= spf <= 500000000000000000 ->
+  let rs0 := rinit sp spf ssc isc users t in
+  let s := r_base (rrun rs0 ops) in
+  hist_cost rs0 ops < 2 * 10 ^ 36 ->
+  0 <= fst (b_pool (s_bank s)) /\ 0 <= snd (b_pool (s_bank s)).
+Proof. exact dust_nonneg. Qed.
+Print Assumptions C01_dust_nonneg_pool_partial.
+
+(* a history with two positions, a one-for-zero swap that crosses tick 1000, a swap back, an incentive and a partial withdrawal:
+   the slack counter is positive and far below the bound, position 1 is open and its full withdrawal pays both tokens *)
+Definition ex_init : rstate :=
+  rinit 0x64 0x71afd498d0000 0x2cd76fe086b93ce2f768a00b22a00000000000 0x2cd76fe086b93ce2f768a00b22a00000000000
+    [(0xc9f2c9cd04674edea40000000, 0xc9f2c9cd04674edea40000000); (0xc9f2c9cd04674edea40000000, 0xc9f2c9cd04674edea40000000);
+     (0xc9f2c9cd04674edea40000000, 0xc9f2c9cd04674edea40000000)] 0x6553f100.
+Definition ex_hist : list rop :=
+  [RBase (OCreate 0x0 0x3b9aca00 0x3b9aca00 0x0 0x0 (-0x186a0) 0x186a0);
+   RBase (OCreate 0x1 0x989680 0x0 0x0 0x0 0x3e8 0xbb8);
+   RIncentive 0x2 0x0 0xf4240 0xde0b6b3a7640000 0x0 0x0;
+   RBase (OTime 0x64);
+   RBase (OSwapIn 0x2 false 0x1c9c380 0x1);
+   RBase (OSwapOut 0x2 true 0x989680 0xffffffffffff);
+   RBase (OWithdraw 0x1 0x2 0x3e8)].
+Example C01_solv_reachable_nonvacuous :
+  let s := r_base (rrun ex_init ex_hist) in
+  0 < hist_cost ex_init ex_hist < 2 * 10 ^ 36 /\ length (s_pos s) = 2%nat /\
+  0 < fst (b_pool (s_bank s)) /\ 0 < snd (b_pool (s_bank s)) /\
+  exists q x0 x1, In q (s_pos s) /\ calc_actual_amounts (s_pool s) (ps_lower q) (ps_upper q) (- ps_liq q) = Some (x0, x1)
+    /\ d_truncate_int x0 < 0 /\ d_truncate_int x1 < 0.
+Proof.
+  intro s. let v := eval vm_compute in (r_base (rrun ex_init ex_hist)) in assert (E : s = v) by (vm_compute; reflexivity).
+  clearbody s. subst s.
+  split; [split; vm_compute; reflexivity|]. split; [reflexivity|].
+  split; [vm_compute; reflexivity|]. split; [vm_compute; reflexivity|].
+  eexists. eexists. eexists. split; [left; reflexivity|]. split; [vm_compute; reflexivity|]. split; vm_compute; reflexivity.
+Qed.
